@@ -63,10 +63,19 @@ type ChainResult struct {
 func Generate(pr ChainParams) (res ChainResult) {
 	t0 := time.Now()
 	res.Name, res.Dir = pr.Name, pr.Dir
+	var c *Chain
 	defer func() {
 		res.Seconds = time.Since(t0).Seconds()
 		if r := recover(); r != nil {
 			res.Err = fmt.Errorf("generator panic: %v", r)
+			if c != nil {
+				// flush what was recorded so far: the steps up to here are evidence
+				c.Problems = append(c.Problems, fmt.Sprintf("generator panic: %v", r))
+				func() {
+					defer func() { recover() }()
+					c.finish(&res, pr)
+				}()
+			}
 		}
 	}()
 	sc := pr.Scenario
@@ -87,10 +96,10 @@ func Generate(pr ChainParams) (res ChainResult) {
 		res.Err = err
 		return
 	}
-	c := &Chain{Name: pr.Name, Scenario: sc, Spec: sp, Rng: r.Fork(), Rec: rec, BLS: NewBLSTable(), Stats: NewStats(),
+	c = &Chain{Name: pr.Name, Scenario: sc, Spec: sp, Rng: r.Fork(), Rec: rec, BLS: NewBLSTable(), Stats: NewStats(),
 		Planned: map[common.Epoch]*EpochPlan{}, Vars: map[string]int{}, depositors: map[common.BLSPubkey]GenVal{},
 		slashedSet: map[common.ValidatorIndex]bool{}, exitSet: map[common.ValidatorIndex]bool{}, activated: map[common.ValidatorIndex]bool{},
-		aggDone: map[common.Root]bool{}, Epochs: pr.Epochs, Absent: map[common.ValidatorIndex]bool{}}
+		aggDone: map[common.Root]bool{}, Epochs: pr.Epochs, Absent: map[common.ValidatorIndex]bool{}, justified: map[common.Epoch]bool{}, modeOf: map[common.Epoch]string{}}
 	c.OpRate = sc.Rates
 	res.Stats = c.Stats
 	rec.Comment(fmt.Sprintf("chain %s scenario=%s seed=%d epochs=%d", pr.Name, sc.Name, pr.Seed, pr.Epochs))
@@ -138,14 +147,33 @@ func Generate(pr ChainParams) (res ChainResult) {
 	if pr.Engine > 0 {
 		c.EngineStream(pr.Engine)
 	}
-	if sc.Check != nil && res.Err == nil {
-		res.Unmet = sc.Check(c)
+	if res.Err == nil {
+		if pr.Plain || sc.Check == nil {
+			// the plain minimal preset has long periods (exits after 64 epochs, ...): only the generic expectations apply
+			commonChecks(c, &res.Unmet)
+		} else {
+			res.Unmet = sc.Check(c)
+		}
 	}
 	c.finish(&res, pr)
 	return
 }
 
 func (c *Chain) finish(res *ChainResult, pr ChainParams) {
+	// did the epochs planned exactly at the 2/3 boundary behave as planned?
+	for e, m := range c.modeOf {
+		if int(e)+2 >= c.Epochs || e == 0 {
+			continue // justification of the last epochs is not visible yet; epoch 0 is never justified by votes
+		}
+		switch m {
+		case "boundary_hi", "boundary_lo", "full", "none":
+			if c.justified[e] {
+				c.Stats.Inc("mode_" + m + "_justified")
+			} else {
+				c.Stats.Inc("mode_" + m + "_not_justified")
+			}
+		}
+	}
 	res.Problems = c.Problems
 	npk, nsig, nagg := c.BLS.Counts()
 	c.Stats.C["bls_pk"] = npk
